@@ -490,6 +490,14 @@ func c04(c *Ctx) (*report.Result, error) {
 			checkDeliver(c, res, f, spec.name, spec.getChan, spec.fwd, "O4.6")
 		}
 	}
+	res.RuleDoc["O4.7"] = "the proxy-id table translates a target's confirmation back to exactly the source ids it covers, also across growth and wrap-around while a slow target has a backlog (the index, growth, append and discard obligations of C05, imported): a mistranslated confirmation acknowledges tasks the target has not confirmed, and the loss shows when the stream breaks and the source resumes"
+	if r5, err := c05(c); err == nil && r5 != nil {
+		if n := importObligations(res, r5, "O4.7", nil); n < 10 {
+			res.Undec("O4.7", "proxy-id table obligations", "", fmt.Sprintf("only %d obligations imported from C05", n))
+		}
+	} else {
+		res.Undec("O4.7", "proxy-id table obligations", "", "C05 rule set failed")
+	}
 	res.RuleDoc["O4.5"] = "a target stream that (re)connects is not told a watermark above tasks still waiting for it: lastWatermark is written only from watermark-only batches (same rule as O1.6)"
 	checkReplayedWatermark(c, res, "O4.5")
 
